@@ -113,6 +113,35 @@ def two_runs(seed=0):
     return fails
 
 
+def mixed_periods():
+    """Evaluator and stopper with periods that do not divide each other: at every epoch the stopper checks, the decision
+    follows the documented rule on the evaluator's record as it stands (whenever those evaluations were made)."""
+    from qucumber.callbacks import EarlyStopping, MetricEvaluator
+    fails = []
+    script = [5.0, 4.0, 3.5, 3.45, 3.44, 3.44, 3.44, 3.0, 3.0, 3.0, 3.0, 3.0]
+    for pe, ps, pat, tol in ((3, 2, 1, 0.05), (2, 3, 1, 0.05), (3, 2, 2, 0.2), (2, 5, 1, 0.6)):
+        cur = {"e": 0}
+        ev = MetricEvaluator(pe, {"m": lambda s, **k: script[min(cur["e"] // pe, len(script) - 1)]})
+        es = EarlyStopping(ps, tol, pat, ev, "m", criterion="absolute")
+        st = _State()
+        stop, want = None, None
+        for e in range(1, 31):
+            cur["e"] = e
+            ev.on_epoch_end(st, e)
+            if want is None and e % ps == 0:
+                rec = [v["m"] for _e, v in ev.past_values]
+                if len(rec) >= pat + 1 and abs(rec[-1 - pat] - rec[-1]) < tol:
+                    want = e
+            es.on_epoch_end(st, e)
+            if st.stop_training:
+                stop = e
+                break
+        if stop != want:
+            fails.append(({"evaluator period": pe, "stopper period": ps, "patience": pat, "tolerance": tol},
+                          "stopped at %s, documented rule says %s" % (stop, want)))
+    return fails
+
+
 def replay_model(cfg, model):
     """Run the real on_epoch_end once on the history described by the solver's counter-model."""
     from qucumber.callbacks import EarlyStopping, MetricEvaluator, ObservableEvaluator
@@ -158,14 +187,14 @@ def replay(cfg, model, short):
         r = replay_model(cfg, model)
         if r is not None and r["reproduced"]:
             return {"reproduced": True, "failed_clauses": [("on_epoch_end on the solver's history", str(r))], "solver_model": {k: v for k, v in model.items() if k.startswith("@")}}
-    f = native_check(0, True) + [(a, b, "same in both runs") for a, b in two_runs(0)]
+    f = native_check(0, True) + [(a, b, "same in both runs") for a, b in two_runs(0)] + [(a, b, "mixed periods") for a, b in mixed_periods()]
     if cfg.get("criterion"):
         f = [x for x in f if x[0]["criterion"] == cfg["criterion"]] or f
     return {"reproduced": bool(f), "failed_clauses": [(str(a), "got %s want %s" % (g, w)) for a, g, w in f[:3]], "solver_model": model}
 
 
 def bounded(tier, seed):
-    f = native_check(seed, tier == "quick") + [(a, b, "same in both runs") for a, b in two_runs(seed)]
+    f = native_check(seed, tier == "quick") + [(a, b, "same in both runs") for a, b in two_runs(seed)] + [(a, b, "mixed periods") for a, b in mixed_periods()]
     return {"driver": "drivers/C18.native_check", "label": "bounded", "evaluations": (10 if tier == "quick" else 46) * 4 * 4 * 3 * 2, "failures": len(f),
             "bound": "concrete sequences (oscillating, constant, zeros, random) x patience 1,2,3,5 x tolerance 0,0.01,0.2,inf x 3 criteria x period 1,2",
             "first_failures": [(str(a), str(g), str(w)) for a, g, w in f[:3]]}
